@@ -100,6 +100,7 @@ structure Client where
   fp : Nat := 0               -- requested bridge fingerprint (0 = the default bridge)
   pc : CPC := .absent
   res : CRes := .none
+  sf : Option Nat := none     -- ghost: the poll its `matchSnowflake` popped
 deriving DecidableEq, Repr
 
 structure Ans where
@@ -242,7 +243,7 @@ def step (fixed : Bool) (st : St) : Lab → Option St
     if k.pc = .start ∧ (st.bridge k.fp).isSome ∧ waiting st (wantU k.nat) p = true
         ∧ st.polls.all (fun q => !(waiting st (wantU k.nat) q) || decide (s.clients ≤ (st.ss q).clients)) = true then
       some { st with ss := upd st.ss p { s with inHeap := false, popBy := some c },
-                     cs := upd st.cs c { k with pc := .sendOffer p } }
+                     cs := upd st.cs c { k with pc := .sendOffer p, sf := some p } }
     else none
   | .cDeny c =>
     let k := st.cs c
